@@ -1,16 +1,19 @@
 """C15 — an environment's behaviour depends on its contents, not on its history (DESIGN.md §3 C15)."""
-import json, re, collections, glob, os, hashlib
-from common import VERIF
+import json, re, collections, glob, os, hashlib, subprocess, concurrent.futures
+from common import VERIF, LEAN
 
 READY = True
 
 META = {
     "technique": "Lean 4 proof (two-tier template store with load-time configuration refines a plain map + memo cache; "
                  "history independence of the whole environment value, failed insert/lookup are no-ops, re-add is a load, "
-                 "stickiness, templates() lists each name once, copy-on-write registries isolate clones, state identity — all by "
-                 "induction over arbitrary operation sequences; structural source facts regenerated from /repo) + differential "
-                 "random histories: real Environment vs. Lean model vs. freshly built environment in which every template is "
-                 "loaded under the load-time configuration of its last load; foreign-value and 8-thread streams for the runtime part",
+                 "stickiness, templates() lists exactly the stored templates once each, copy-on-write registries isolate clones, "
+                 "Environment::empty() = stripped Environment::new(), state identity, and one small model per class of hidden state "
+                 "(once-cells, buffer pools, value-handle registry, serialisation-flag guard, id counters) — all by induction over "
+                 "arbitrary operation sequences; structural source facts AND the complete list of statics/thread-locals/interior-"
+                 "mutable fields regenerated from /repo) + differential random histories: real Environment vs. Lean model vs. "
+                 "freshly built environment in which every template is loaded under the load-time configuration of its last "
+                 "load; foreign-value and 8-thread streams for the runtime part",
     "category": "proof",
     "text": "Kernel-checked theorems about the model of LoaderStore (borrowed map + memoising owned map with mutual "
             "eviction, loader, load-time TemplateConfig; compile as a parameter that may depend on the configuration; a stored "
@@ -19,50 +22,84 @@ META = {
             "specification's answer; an environment's behaviour is a function of its value (run-time configuration, load-time "
             "configuration for future loads, loader, per template (source, load-time configuration at its last load), "
             "registries): any two histories/worlds ending in the same value are indistinguishable by every continuation "
-            "(env_history_independent); an addition that fails to compile and a lookup that fails leave the store identical; "
-            "re-adding a template — also with identical source — is a load under the current configuration (readd_is_a_load); "
-            "a template once found keeps source and compilation until removed, re-added or cleared (also across set_loader and "
-            "configuration changes); templates() lists every name once; operations on one environment leave its clones/original "
-            "unchanged. Unwinding: a Value::from(Serde(x)) conversion left by a caught panic restores the thread's serialisation "
-            "flag whatever happened inside (caught_panic_restores_thread_state; the seeded '!panicking()' guard is refuted by "
-            "seeded_guard_leaves_thread_marked); a panicking loader leaves the store identical. State identity: ids come from one process-wide counter, so a macro stamped by one render is refused by "
-            "every other render whatever thread it runs on (foreign_macro_rejected). source_tables_match_model re-checks against "
-            "the current source: the load-time/run-time classification of every Environment::set_*, the TemplateConfig fields, the "
-            "event order of both insert_cow arms, the lookup order of get, the tiers of remove/clear, the static atomic STATE_ID, "
-            "the derived Clones, every thread_local! of the crate, every Drop guard that restores one (condition = the guard's own flag "
-            "only) and the clearing of pooled codegen buffers. The model is tied to /repo by random histories (length <= 30, up to three live environments) over "
-            "the operation alphabet of the quantifier plus every configuration setter, re-adds of identical sources, an impure "
-            "loader, a panicking loader, un-normalised names, template handles held across modifications of a clone, and 14 kinds "
-            "of operations that UNWIND and are caught on the same thread (context Serialize impl panics outermost/via render/nested/"
-            "inside a filter; panicking function, filter, test, object method, formatter, auto-escape callback, path-join callback, "
-            "loader at several points of a render) after which the reference environment lives on a fresh thread: after every step the "
-            "get_template result (source + fingerprint of the real compilation), templates(), registries and both configurations "
-            "of every live environment are compared with the Lean model, and get_template(n).render(ctx) for every name with a "
-            "freshly built environment of the same value (templates placed in random tiers and order, each loaded under the "
-            "configuration of its last load). PARTIAL: threads and thread-local/global caches (codegen buffer pools, "
-            "INTERNAL_SERIALIZATION, VALUE_HANDLES, small-int format cache) and the atomicity of STATE_ID are not modelled; they "
-            "are validated by failing compiles/renders/serialisations interleaved in the histories, by the foreign-value stream "
-            "(render-bound values exported from finished renders and used by other renders on the main thread, new threads after "
-            "0..3 other renders, and concurrently) and by 8 threads rendering concurrently from the shared environment.",
+            "(env_history_independent, over set_loader, all five load-time setters, all seven run-time setters, add/remove of "
+            "filters/tests/globals, add_template/add_template_owned in every borrowed/owned combination, remove/clear, lookups); "
+            "an environment created by new() from which every builtin is removed and whose auto-escape callback is replaced "
+            "has the value of empty() and behaves like it (empty_env_is_stripped_new); an addition that fails to compile and "
+            "a lookup that fails leave the store identical; re-adding a template — also with identical source, through either "
+            "insert_cow arm (the borrowed arm needs BOTH parts borrowed: insert_arm_selection, any_arm_replaces_both_tiers) — "
+            "is a load under the current configuration (readd_is_a_load); a template once found keeps source and compilation "
+            "until removed, re-added or cleared (also across set_loader and configuration changes); templates() lists (n, t) "
+            "exactly when a lookup of n is answered with t from the store itself, every name once (templates_lists_contents); "
+            "operations on one environment leave its clones/original unchanged. HIDDEN STATE: every static, thread_local!, "
+            "OnceLock, Cell/RefCell/Mutex/atomic field, memo map, pool and Arc::make_mut registry of minijinja/src (tests, "
+            "vendored self_cell and verif_hooks aside) is enumerated from the source on every run and must equal the "
+            "classified list of the model (all_hidden_state_classified: 36 rows in 11 classes; a OnceLock filled at a second "
+            "site counts as new). Per class: a once-cell read any number of times returns its single initialiser's value "
+            "(once_cache_is_content_determined; a shared cell would not: shared_once_cell_depends_on_history); a pool whose "
+            "take or recycle clears hands out only empty buffers whatever holders pushed and however they went away, "
+            "unwinding included (pool_buffer_is_cleared, source_pools_safe; with neither clear it leaks: "
+            "pool_without_clears_leaks); the value-handle registry with its single-slot fast path is a map, so entries leaked "
+            "by a foreign serializer or an unwound conversion are never returned (leaked_handles_never_returned, "
+            "source_handle_registry_as_modelled; taking the single slot without comparing its handle is equivalent for "
+            "present handles: lifo_remove_agrees_when_present); a Value::from(Serde(x)) conversion left by a caught panic "
+            "restores the thread's serialisation flag whatever happened inside (caught_panic_restores_thread_state; the "
+            "seeded '!panicking()' guard is refuted by seeded_guard_leaves_thread_marked); a panicking loader leaves the "
+            "store identical; state ids come from one process-wide counter, so a macro stamped by one render is refused by "
+            "every other render whatever thread it runs on (foreign_macro_rejected). source_tables_match_model re-checks "
+            "against the current source: the load-time/run-time classification of every Environment::set_*, the "
+            "TemplateConfig fields, the event order of both insert_cow arms, the lookup order of get, the tiers of "
+            "remove/clear, the static atomic STATE_ID, the derived Clones, every thread_local! and every Drop guard that "
+            "restores one (condition = the guard's own flag only). The model is tied to /repo by random histories (length <= "
+            "30, up to three live environments, starting from Environment::new() or Environment::empty()) over the operation "
+            "alphabet of the quantifier plus every configuration setter, add_template_owned with borrowed name and/or "
+            "source, re-adds of identical sources, render_named_str / template_from_named_str of stored, loader-known and "
+            "other sources, an impure loader, a panicking loader, un-normalised names, template handles held across "
+            "modifications of a clone, conversions that leak value handles into the thread, and 14 kinds of operations that "
+            "UNWIND and are caught on the same thread, after which the reference environment lives on a fresh thread: after "
+            "every step the get_template result (source + fingerprint of the real compilation: every instruction with "
+            "operands, line and span), templates() (twice: same order; every listed template is pointer-identical to what "
+            "get_template returns; no loader consulted), registries and both configurations of every live environment are "
+            "compared with the Lean model, and get_template(n).render(ctx) (through render / render_captured / "
+            "render_captured_to; 5 contexts incl. a failing Serialize, a serde context with embedded engine values and the "
+            "255/256 boundary of the small-integer cache; errors with line and byte range) for every name with a freshly "
+            "built environment of the same value (templates placed in random tiers, Cow combinations and order, each loaded "
+            "under the configuration of its last load; an environment that started empty is rebuilt from empty() or from a "
+            "stripped new()). A history that unwinds out of an unguarded engine call is itself a failing input. Foreign-value "
+            "stream: a render-bound value exported from a finished render must be REFUSED by every other render (oracle) and "
+            "all 14 thread/history variants must agree. PARTIAL: interleavings of threads beyond the total order of STATE_ID "
+            "are not modelled; they are validated by the foreign-value stream and by 8 threads rendering concurrently from "
+            "the shared environment.",
     "design_ref": "DESIGN.md §3 C15",
     "level_note": "Proved (kernel): sequential store/configuration/registry/clone behaviour of the model for all histories; state ids "
-                  "for all interleavings given one totally ordered counter. Trusted: hand transcription of loader.rs "
-                  "LoaderStore::{insert_cow,remove,clear,get,set_loader,iter}, of the Environment setters and of the "
-                  "Arc<BTreeMap>+make_mut registries into MJ/Model/Store.lean — its structural facts are re-extracted from the source "
-                  "every run (source_tables_match_model), its behaviour is checked by the differential histories (Arc strong count = "
-                  "number of handles and the total order of fetch_add are assumptions about std). Validated, NOT proved: rendering "
-                  "itself (the VM) being a function of the looked-up compiled templates, run-time configuration, registries and "
-                  "context — observed as equality with a fresh environment and on repetition; that a compiled template is a function "
-                  "of (name, source, load-time configuration) — observed through fingerprints of the real compiler's output for all 96 "
-                  "configurations x 18 sources x 5 names; concurrency (8 threads, shared environment, MemoMap under its mutex) and "
-                  "absence of residue in thread-local pools after failing compiles/renders — sampled schedules only, no claim for all "
-                  "interleavings. Template handles cannot outlive a modification of their own environment (borrow checker); handles "
-                  "held across modifications of a clone are validated. The order of templates() within the memo tier is HashMap "
-                  "order (unspecified): only the multiset is compared.",
+                  "for all interleavings given one totally ordered counter; the discipline of each class of hidden state in its "
+                  "small model (once-cell, pool, handle registry, flag guard incl. unwinding, id counters). Regenerated every run "
+                  "and compared by decide: the complete list of hidden state and the structural facts the models transcribe "
+                  "(which clears the pools have, that remove compares the single slot's handle, the insert_cow arm patterns, …). "
+                  "Trusted: hand transcription of loader.rs LoaderStore::{insert_cow,remove,clear,get,set_loader,iter}, of the "
+                  "Environment setters, of ValueHandleRegistry::{insert,remove}, of the pool functions and of the "
+                  "Arc<BTreeMap>+make_mut registries into MJ/Model/{Store,Hidden}.lean — behaviour checked by the differential "
+                  "histories (Arc strong count = number of handles, OnceLock/MemoMap/Mutex semantics and the total order of "
+                  "fetch_add are assumptions about std and memo-map). Validated, NOT proved: rendering itself (the VM) being a "
+                  "function of the looked-up compiled templates, run-time configuration, registries and context — observed as "
+                  "equality with a fresh environment, across entry points and on repetition; that a compiled template is a "
+                  "function of (name, source, load-time configuration) and of nothing a code generator left in its pools — "
+                  "observed through fingerprints (instructions, operands, lines, spans) of the real compiler's output for all 96 "
+                  "configurations x 18 sources x 5 names at process start vs. after every history step; concurrency (8 threads, "
+                  "shared environment, MemoMap under its mutex) — sampled schedules only, no claim for all interleavings. "
+                  "Classes `renderLocal` (Loop, Kwargs.used, the WriteWrapper of render_captured_to) and `valueState` (Namespace, "
+                  "one-shot and reversed iterators) are classified, not modelled: the former are created by one render/call and "
+                  "reachable only through its values; the latter are values whose state is part of the context the caller "
+                  "passes (a context holding a consumed one-shot iterator is not 'the same context'). Template handles cannot "
+                  "outlive a modification of their own environment (borrow checker); handles held across modifications of a "
+                  "clone are validated. The order of templates() within the memo tier is HashMap order (unspecified): the "
+                  "multiset and the repeatability of the order are compared, not the order itself.",
 }
 
-QUICK_HISTORIES = 5_000
-THOROUGH_CHUNKS = 18
+SHARD_HISTORIES = 500
+QUICK_SHARDS = 12          # 6 000 histories
+THOROUGH_SHARDS = 160      # 80 000 histories
+WORKERS = min(12, os.cpu_count() or 4)
 
 FAIL_RE = re.compile(r"FAIL([a-z-]+)\{([^}]*)\}")
 
@@ -72,7 +109,7 @@ def first_failure(oracle_steps):
         if s != "=":
             m = FAIL_RE.findall(s)
             # the most specific predicate first
-            order = {"thread-state": 0, "failed-insert": 1, "isolation": 2, "handle": 3, "sticky": 4, "repeat": 5, "threads": 6, "fresh": 7}
+            order = {"thread-state": 0, "failed-insert": 1, "isolation": 2, "handle": 3, "sticky": 4, "listing": 5, "repeat": 6, "threads": 7, "fresh": 8}
             m.sort(key=lambda x: order.get(x[0], 9))
             return i, (m[0] if m else ("unparsed", s))
     return None
@@ -110,7 +147,7 @@ def shrink(r, exe, toks, site):
 
 def strip_logs(tok):
     f = tok.split(":")
-    return ":".join(f[:4]) if f[0] == "r" else (":".join(f[:3]) if f[0] == "hd" else tok)
+    return ":".join(f[:4]) if f[0] == "r" else (":".join(f[:3]) if f[0] == "hd" else (":".join(f[:5]) if f[0] == "ns" else tok))
 
 
 TBL = {}
@@ -123,8 +160,12 @@ def read_headers(r, lines):
         if l.startswith("#tbl "):
             _, n, k, cfg, h = l.split(" ")
             TBL[(n, k, cfg)] = h
-        elif l.startswith("#cmp-inconsistent"):
+        elif l.startswith("#cmp-inconsistent") and r is not None:
             r.broken.append("compile success of a source depends on more than the syntax: " + l)
+        elif l.startswith("#strip-fallbacks ") and r is not None:
+            # the stripped-`new()` reference could not be built (Debug output no longer lists the
+            # builtin names): the reference fell back to `empty()`, coverage note only
+            r.extra["stripped_new_fallbacks"] = r.extra.get("stripped_new_fallbacks", 0) + int(l.split(" ")[1])
         elif l.startswith("#cmp "):
             cmp_lines.append(l)
         elif l.startswith("#"):
@@ -155,9 +196,19 @@ def translate_step(step, tok):
     return "|".join(parts)
 
 
-def process(r, exe, out, shrunk_sites):
+def run_driver(text):
+    """the (already built) Lean driver on input text, callable from worker threads"""
+    try:
+        p = subprocess.run([os.path.join(LEAN, ".lake", "build", "bin", "drive_c15")], input=text, capture_output=True, text=True, timeout=3000)
+    except Exception:
+        return None
+    return p.stdout.splitlines() if p.returncode == 0 else None
+
+
+def process(r, exe, out, shrunk_sites, model="run"):
     cmp_lines, lines = read_headers(r, out.splitlines())
-    model = r.driver("drive_c15", "\n".join(cmp_lines + lines) + "\n")
+    if model == "run":
+        model = r.driver("drive_c15", "\n".join(cmp_lines + lines) + "\n")
     if model is None or len(model) != len(lines):
         r.broken.append("model driver output does not line up with the harness histories")
         model = None
@@ -168,15 +219,21 @@ def process(r, exe, out, shrunk_sites):
             continue
         case, impl, orc, notes = f
         toks = case.split(" ")
+        if impl == "harness-panic":
+            r.count(case, True, n=len(toks))
+            m = FAIL_RE.search(orc)
+            r.oracle_failure(" ".join(strip_logs(t) for t in toks), "the history unwound out of the engine: " + (m.group(2) if m else orc), "unwound")
+            continue
         isteps = impl.split(" / ")
         osteps = orc.split(" / ")
         kinds = [t.split(":")[0] for t in toks]
-        nontrivial = any(k in ("ab", "ao", "sl") for k in kinds) and any(k in ("r", "th", "hd") for k in kinds)
+        nontrivial = any(k in ("ab", "ao", "ax", "sl") for k in kinds) and any(k in ("r", "th", "hd", "ns") for k in kinds)
         r.count(case, nontrivial, n=len(toks))
         r.extra["histories"] = r.extra.get("histories", 0) + 1
         for k in kinds:
             r.hist["op"][k] += 1
         r.hist["history_length"][str(len(toks) // 5 * 5) + "+"] += 1
+        r.hist["starts_from"]["Environment::empty()" if kinds and kinds[0] == "em" else "Environment::new()"] += 1
         last = {}
         cfg_changed = {}
         for t, st, note in zip(toks, isteps, notes.split(" ")):
@@ -189,7 +246,13 @@ def process(r, exe, out, shrunk_sites):
                                         "filter mid-output", "test in loop", "object method", "formatter",
                                         "auto-escape callback (compile)", "path-join callback", "loader",
                                         "conversion inside a filter"][int(tf[2])] + (" -> caught" if res == "panic" else " -> " + res)] += 1
-            if k in ("ab", "ao"):
+            if k == "ax":
+                r.hist["add_template_owned_cow"][["", "name borrowed", "source borrowed", "both borrowed (borrowed arm)"][int(tf[4])]] += 1
+            if k == "ns":
+                r.hist["named_str_entry_point"][["render_named_str", "template_from_named_str+render", "template_from_named_str+render_captured"][int(tf[4])]] += 1
+            if k == "jk":
+                r.hist["junk_op"][tf[2]] += 1
+            if k in ("ab", "ao", "ax"):
                 r.hist["add_result"]["ok" if res == "ok" else "compile-error"] += 1
                 key = (tf[1], tf[2])
                 if res == "ok" and last.get(key) == tf[3]:
@@ -219,6 +282,7 @@ def process(r, exe, out, shrunk_sites):
                 r.hist["render_lookup"][cat] += 1
                 if k == "r":
                     r.hist["render_outcome"][note] += 1
+                    r.hist["render_context"][["plain", "failing Serialize", "list", "256/255", "serde with embedded values"][min(int(tf[3]), 4)]] += 1
             r.hist["live_envs"][str(st.count("|"))] += 1
         if model is not None:
             msteps = [translate_step(m, t) for m, t in zip(model[li].split("\t")[1].split(" / "), toks)]
@@ -243,6 +307,7 @@ def process(r, exe, out, shrunk_sites):
             r.sample({"history": case, "last_step_engine": isteps[-1], "oracle": "holds" if ff is None else osteps[ff[0]]})
 
 
+FX_LABELS = ["main", "new+0", "new+1", "new+2", "new+3", "exporter+1"] + [f"conc0.{i}" for i in range(4)] + [f"concK.{i}" for i in range(4)]
 WENT_AWAY = "err:InvalidOperation:cannot call this macro. template state went away."
 MODEL_TO_IMPL = {"free": "ok", "accepted": "ok", "rejected": "rejected", "-": "-"}
 
@@ -250,7 +315,9 @@ MODEL_TO_IMPL = {"free": "ok", "accepted": "ok", "rejected": "rejected", "-": "-
 def impl_class(v):
     if v == "-":
         return "-"
-    if v == WENT_AWAY:
+    if v == WENT_AWAY or v.startswith("err:"):
+        # refused — with the engine's message, or (should its wording change) with any error: what
+        # matters is that the foreign value did not run
         return "rejected"
     if v.startswith("ok:"):
         return "ok"
@@ -284,6 +351,14 @@ def process_foreign(r, exe, out):
             want = [MODEL_TO_IMPL.get(m, m) for m in model[li].split("\t")[1].split(" / ")]
             if want != classes:
                 r.model_disagreement(case, " / ".join(classes), " / ".join(want))
+        # a value bound to the render that made it (a macro, a namespace/module holding one, `caller`) is
+        # refused by EVERY other render: accepting it would run that render with closures and
+        # instruction streams of a state that is not its own
+        if consumer != "info" and x != "6":
+            bad = [(lab, v) for lab, v, c in zip(FX_LABELS, vs, classes) if c not in ("rejected", "-")]
+            if bad:
+                r.oracle_failure(case, f"a render-bound value exported from one render was accepted by another render "
+                                       f"(variant {bad[0][0]}: {bad[0][1][:120]})", f"foreign-accepted:{consumer}")
         if verdict != "=":
             m = FAIL_RE.search(verdict)
             r.oracle_failure(case, "render-bound value exported from one render, used in another: " +
@@ -293,27 +368,38 @@ def process_foreign(r, exe, out):
 
 
 def run(r):
-    r.rule = ("random histories (length 1..30, up to 3 live environments created by clone) over {add_template, "
-              "add_template_owned (incl. re-adds of the identical source and of what the loader delivers), remove_template (also "
-              "of un-normalised spellings), clear_templates, set_loader (6 tables, one impure: answers change with an outside "
-              "phase), set_trim_blocks/lstrip_blocks/keep_trailing_newline/syntax(3)/auto_escape_callback(4), "
-              "set_undefined_behavior(4)/formatter/debug/recursion_limit/fuel/path_join_callback/unknown_method_callback, "
-              "add/remove filter/test/global, clone, render (3 contexts incl. a failing serialisation), template handle held across "
-              "modifications of a clone, failing compiles/renders, 8-thread phase}; 5 names (one is './a') x 18 sources (every one "
-              "sensitive to each load-time setting; 2 broken, several failing at run time, includes/extends/imports between the "
-              "names). evaluations = history steps (each step compares every name of every live environment); a history is "
-              "non-trivial when it is distinct, changes the store or loader and performs a lookup. Plus the foreign-value stream: 9 "
-              "exporters (macro, closure macro, namespace, set-export, module, caller, loop, from-import, nested macro) x 5 export "
-              "sites x 4 consumers x {context, global}, each used on the main thread, on new threads after 0..3 other "
-              "renders, on the exporting thread and on 2x4 concurrent threads (all 14 results must be identical)")
+    r.rule = ("random histories (length 1..30, up to 3 live environments created by clone; one in seven starts from "
+              "Environment::empty(), the others from Environment::new()) over {add_template, add_template_owned with owned / "
+              "borrowed name and source in all four combinations (incl. re-adds of the identical source and of what the loader "
+              "delivers), remove_template (also of un-normalised spellings), clear_templates, set_loader (6 tables, one impure: "
+              "answers change with an outside phase; one panics), set_trim_blocks/lstrip_blocks/keep_trailing_newline/syntax(3)/"
+              "auto_escape_callback(4), set_undefined_behavior(4)/formatter/debug/recursion_limit/fuel/path_join_callback/"
+              "unknown_method_callback, add/remove filter/test/global (custom, builtin function), clone, render (5 contexts: plain, "
+              "failing Serialize, list, 256/255, serde with embedded engine values; through render/render_captured/"
+              "render_captured_to), render_named_str/template_from_named_str (+render, +render_captured) of stored, loader-known "
+              "and other sources, template handle held across modifications of a clone, 10 failing compiles/renders/"
+              "serialisations incl. conversions that leak 1-2 value handles into the thread, 14 operations that unwind and are "
+              "caught, 8-thread phase}; 5 names (one is './a') x 18 sources (every one sensitive to each load-time setting; 2 "
+              "broken, several failing at run time, includes/extends/imports between the names, one using namespace/loop.cycle/"
+              "loop.changed/reverse/kwargs). In every other history (and after the first caught panic in all) the reference "
+              "environments are built and observed on brand-new threads. evaluations = history steps (each step compares every "
+              "name of every live environment); a history is non-trivial when it is distinct, changes the store or loader and "
+              "performs a lookup. Histories run in shards of 500 (12 quick / 160 thorough, one process each). Plus the "
+              "foreign-value stream: 9 exporters (macro, closure macro, namespace, set-export, module, caller, loop, from-import, "
+              "nested macro) x 5 export sites x 4 consumers x {context, global}, each used on the main thread, on new threads "
+              "after 0..3 other renders, on the exporting thread and on 2x4 concurrent threads (all 14 results must be "
+              "identical, and a render-bound value must be refused by every other render)")
     r.assumptions = ["Arc's strong count equals the number of live handles (std)",
                      "fetch_add on the process-wide STATE_ID is totally ordered (std atomics); no wrap-around within 2^64 states",
                      "a loader closure answers as a function of the name and of the modelled outside phase (no hidden state of its own)",
                      "rendering is a function of the compiled templates looked up, run-time configuration, registries and context (validated against a fresh environment, not proved)",
                      "guards are dropped innermost first when a panic unwinds (Rust semantics); VALUE_HANDLES entries leaked by an unwound conversion are never read (handles are fresh; u32 wrap-around not modelled)",
+                     "OnceLock::get_or_init runs one initialiser and every reader sees its value; MemoMap is a map under a mutex (std / memo-map)",
+                     "a context or global that holds a value with state of its own (namespace, one-shot iterator) is 'the same context' only in the same state",
                      "thread schedules are sampled (8 threads x 12 renders per phase; 14 variants per foreign-value case), not enumerated"]
     r.regen_tables(["C15_SETTERS", "C15_TEMPLATE_CONFIG", "C15_INSERT_ARMS", "C15_GET_ORDER", "C15_REMOVE_CLEAR", "C15_STATE_ID", "C15_CLONE_DERIVES",
-                    "C15_THREAD_LOCALS", "C15_DROP_GUARDS", "C15_POOL_TAKE_CLEARS"])
+                    "C15_THREAD_LOCALS", "C15_DROP_GUARDS", "C15_POOLS", "C15_HANDLE_REGISTRY", "C15_INSERT_ARM_PATTERNS",
+                    "C15_HIDDEN_STATE"])
     r.lean_prove("MJ.Props.C15", "MJ/Audit/C15.lean", extra_targets=["drive_c15"])
     exe = r.cargo_build("c15")
     if exe is None:
@@ -336,17 +422,34 @@ def run(r):
     # harness seeds are spread by a hash of (VERIF_SEED, chunk)
     def spread(i):
         return int.from_bytes(hashlib.blake2b(f"C15:{r.seed}:{i}".encode(), digest_size=8).digest(), "big")
-    n_chunks = 1 if r.tier == "quick" else THOROUGH_CHUNKS
-    chunks = [(spread(i), QUICK_HISTORIES) for i in range(n_chunks)]
-    for seed, count in chunks:
+    # the histories are generated and run in shards (one harness process each, `WORKERS` at a time);
+    # the results are processed in shard order, so the run is deterministic in VERIF_SEED
+    n_chunks = QUICK_SHARDS if r.tier == "quick" else THOROUGH_SHARDS
+    chunks = [(spread(i), SHARD_HISTORIES) for i in range(n_chunks)]
+
+    def shard(ch):
+        seed, count = ch
         rc, out, err = r.harness(exe, ["gen", r.tier, str(count)], env={"VERIF_SEED": str(seed)})
-        if rc != 0:
-            r.broken.append(f"harness c15 exited {rc}: {err[-300:]}")
-            return
-        got = sum(1 for l in out.splitlines() if not l.startswith("#"))
-        if got != count:
-            r.broken.append(f"harness c15 produced {got} histories instead of {count}")
-        process(r, exe, out, shrunk)
+        model = None
+        if rc == 0:
+            cmp_lines, lines = read_headers(None, out.splitlines())
+            model = run_driver("\n".join(cmp_lines + [l.split("\t")[0] for l in lines]) + "\n")
+        return rc, out, err, model
+
+    with concurrent.futures.ThreadPoolExecutor(max_workers=WORKERS) as ex:
+        # in waves, so that a thorough run never holds more than two waves of traces in memory
+        for w in range(0, len(chunks), 2 * WORKERS):
+            wave = chunks[w:w + 2 * WORKERS]
+            results = list(ex.map(shard, wave))
+            for (seed, count), (rc, out, err, model) in zip(wave, results):
+                if rc != 0:
+                    r.broken.append(f"harness c15 exited {rc}: {err[-300:]}")
+                    return
+                got = sum(1 for l in out.splitlines() if not l.startswith("#"))
+                if got != count:
+                    r.broken.append(f"harness c15 produced {got} histories instead of {count}")
+                process(r, exe, out, shrunk, model)
+            del results
 
 
 def replay(r, path):
